@@ -108,6 +108,42 @@ def t_set_pos(E, window, scroll_ok):
         E.prove(Implies(And(to_col < 1, row0 == top), And(row == row0, col == 1)), 'top-left corner: stop')
 
 
+def t_set_pos_rows(E, window, scroll_ok):
+    """Vertical moves, including from / to the bottom row outside the window (line feed on row 25)."""
+    t, W, H, sa = _screen(E, window)
+    allowed = E.bool('bottom row allowed')
+    t._bottom_row_allowed = allowed
+    to_row = E.int('to_row', 0, 52)
+    to_col = E.int('to_col', 1, 132)
+    E.assume(And(to_row <= H + 1, to_col <= W))
+    r = E.call(t.set_pos, to_row, to_col, scroll_ok)
+    E.prove(not r.raised, 'never raises')
+    if r.raised:
+        return
+    row, col = t.current_row, t.current_col
+    top, bot = sa._top, sa._bottom
+    scrolls = [x for x in t._apage.log if x[0] == 'scroll_up']
+    E.prove(col == to_col, 'column as requested')
+    if t._bottom_row_allowed is True or (isinstance(t._bottom_row_allowed, SBool) and bool(t._bottom_row_allowed)):
+        E.cover('bottom row')
+        E.prove(And(allowed, to_row == H), 'the bottom row outside the window is entered only when allowed and asked for')
+        E.prove(And(row == H, len(scrolls) == 0), 'cursor on the bottom row, no scroll')
+        return
+    E.prove(And(row >= top, row <= bot), 'otherwise the cursor ends inside the scroll window')
+    E.prove(len(scrolls) <= 1, 'at most one scroll')
+    if scrolls:
+        E.cover('scrolled')
+        a = scrolls[0][1]
+        E.prove(And(scroll_ok, to_row > bot), 'scrolls only when moving below the window and allowed')
+        E.prove(And(a[0] == top, a[1] == bot), 'scrolls exactly the rows of the window')
+        E.prove(row == bot, 'cursor on the bottom row of the window after the scroll')
+    else:
+        E.cover('no scroll')
+        E.prove(Implies(to_row > bot, And(Not(scroll_ok), row == bot)), 'below the window without scrolling: stops on its bottom row')
+        E.prove(Implies(to_row < top, row == top), 'above the window: its top row')
+        E.prove(Implies(And(to_row >= top, to_row <= bot), row == to_row), 'inside the window: exact row')
+
+
 def t_locate(E, window, bar):
     t, W, H, sa = _screen(E, window)
     t._bottom_bar = type('B', (), {'visible': bar})()
@@ -178,6 +214,8 @@ def t_view_print(E, tandy, bar):
 
 TASKS = [
     Task('TextScreen.set_pos', t_set_pos, covers=('scrolled', 'no scroll'),
+         cases=[{'window': w, 'scroll_ok': s} for w in (True, False) for s in (True, False)]),
+    Task('TextScreen.set_pos (rows)', t_set_pos_rows, covers=('scrolled', 'no scroll', 'bottom row'),
          cases=[{'window': w, 'scroll_ok': s} for w in (True, False) for s in (True, False)]),
     Task('TextScreen.locate_', t_locate, covers=('rejected', 'moved'),
          cases=[{'window': w, 'bar': b} for w in (True, False) for b in (True, False)]),
